@@ -272,6 +272,32 @@ end SMV
 
 namespace SMV
 
+/-- what can happen to a machine *and around it* between two of its own transitions: its own operations, an
+external write of the model field (`setattr(model, state_field, v)` by anyone), and a new machine object over
+the same model (a restart; also what `copy.deepcopy` / pickle produce: `__setstate__` builds a fresh engine and
+starts it) -/
+inductive HOp
+  | op (o : Op)
+  | write (v : Option Val)
+  | reconstruct
+deriving Repr, DecidableEq
+
+def stepH (m : Machine) (o : Opts) (fuel : Nat) : HOp → Cfg → Cfg
+  | .op x, c => (stepOp m o fuel x c).1
+  | .write v, c => { c with cur := v }
+  | .reconstruct, c => (construct m o fuel { c with queue := [], locked := false }).1
+
+/-- a general history: every step names the machine in force at that moment, so listeners attached late
+(`add_listener`: more callbacks in the executors), options assigned after construction
+(`allow_event_without_transition`), another `start_value` … are all covered -/
+def runHist (o : Opts) (fuel : Nat) : List (Machine × HOp) → Cfg → Cfg
+  | [], c => c
+  | (m, h) :: rest, c => runHist o fuel rest (stepH m o fuel h c)
+
+end SMV
+
+namespace SMV
+
 /-- keep the first occurrence of every element (`dict` insertion order in `unique_events`) -/
 def dedupe : List Nat → List Nat
   | [] => []
